@@ -351,6 +351,10 @@ class FreeEnergy(InterpolatableFunction):
                 except RuntimeWarning as error:
                     logging.error(error.args[0] + f" at T={ode.t}")
                     break
+                except scipylinalg.LinAlgError as error:
+                    # Exactly singular Hessian: the step landed on the spinodal
+                    logging.warning(f"{error} at T={ode.t}: stopping the phase tracing")
+                    break
                 if paranoid:
                     phaset, potentialEffT = self.effectivePotential.findLocalMinimum(
                         Fields((ode.y)),
